@@ -51,6 +51,7 @@ def _patch_crosshair_perf() -> None:
     from crosshair.tracers import NoTracing, ResumedTracing
     from crosshair.core import deep_realize
     from numbers import Integral
+    from crosshair.util import CrossHairInternal
 
     L = B.LazyIntSymbolicStr
     if getattr(L, "_vf_fast", False):
@@ -75,8 +76,8 @@ def _patch_crosshair_perf() -> None:
                             items = [newcontents[k] for k in range(n)]
                         if all(type(x) is int for x in items):
                             return "".join(map(chr, items))
-                except Exception:
-                    pass
+                except (Exception, CrossHairInternal):
+                    pass  # length or items are symbolic: keep the symbolic representation
             return L(newcontents)
 
     L.__getitem__ = __getitem__
